@@ -130,12 +130,12 @@ class Promise(Generic[T]):
 
             return wrapper
 
-        if resolver:
+        if resolver is not None:
             self._resolvers.append(wrap_callback(resolver))
         else:
             # By default propagate result.
             self._resolvers.append(cast(Callable[[T], Any], promise.do_resolve))
-        if rejector:
+        if rejector is not None:
             self._rejectors.append(wrap_callback(rejector))
         else:
             # By default propagate error.
